@@ -213,7 +213,7 @@ def run(chk):
                 seed += 1
                 cases.append({'variant': variant, 'n': n, 'code': code, 'mix': mix, 'ts': seed % 3, 'pc': [1, 3, 255][seed % 3],
                               'maxlen': [16384, 64, 0, 128][seed % 4], 'msgid': [0, 1, 255, 256, 65535][seed % 5], 'seed': seed})
-    for _ in range(40 if tier == 'quick' else 1500):
+    for _ in range(40 if tier == 'quick' else 10000):
         seed += 1
         cases.append({'variant': rnd.choice(['find', 'mwl']), 'n': rnd.randrange(0, 12), 'code': 0xFF00, 'mix': True,
                       'ts': rnd.randrange(3), 'pc': rnd.randrange(1, 256, 2), 'maxlen': rnd.choice([0, 30, 64, 1024, 16384]),
